@@ -314,20 +314,20 @@ def cmd_suite(work, jobs):
         sh(f'git -C /repo worktree remove --force {tree}')
 
 
-def cmd_checks(work, only=None):
+def cmd_checks(work, only=None, status='survived', outfile='checks.jsonl', max_checks=18):
     muts = {m['id']: m for m in load(work)}
     suite = results(work, 'suite.jsonl')
-    done = results(work, 'checks.jsonl')
+    done = results(work, outfile)
     tree = make_tree(work, 'tree_checks')
     try:
         for mid, cand in muts.items():
-            if suite.get(mid, {}).get('suite') != 'survived' or mid in done:
+            if suite.get(mid, {}).get('suite') != status or mid in done:
                 continue
             if only and mid not in only:
                 continue
             err = apply(tree, cand)
             assert not err
-            order = [c for c in ORDER if c in cand.get('covered_by', ALL)]
+            order = [c for c in ORDER if c in cand.get('covered_by', ALL)][:max_checks]
             rec = {'id': mid, 'ran': [], 'killed_by': None, 'harness': []}
             t0 = time.time()
             for check in order:
@@ -349,7 +349,7 @@ def cmd_checks(work, only=None):
                 if res.returncode != 0:
                     rec['harness'].append({'check': check, 'tail': (res.stdout + res.stderr)[-800:]})
             rec['seconds'] = round(time.time() - t0)
-            with open(os.path.join(work, 'checks.jsonl'), 'a', encoding='utf8') as fhandle:
+            with open(os.path.join(work, outfile), 'a', encoding='utf8') as fhandle:
                 fhandle.write(json.dumps(rec) + '\n')
             print(mid, cand['file'].split('/')[-1], cand['line'], cand['kind'], 'killed by', rec['killed_by'], 'harness', [h['check'] for h in rec['harness']], rec['seconds'], flush=True)
     finally:
@@ -383,6 +383,9 @@ def main():
         cmd_suite(work, int(sys.argv[3]) if len(sys.argv) > 3 else 12)
     elif cmd == 'checks':
         cmd_checks(work, set(sys.argv[3:]) or None)
+    elif cmd == 'checks-suite-killed':
+        # sensitivity only: mutants the repository's suite already kills, against the 5 cheapest checks covering the line
+        cmd_checks(work, None, status='killed', outfile='checks_killed.jsonl', max_checks=5)
     elif cmd == 'report':
         cmd_report(work)
 
